@@ -70,7 +70,19 @@ theorem isSpace_trim (l : List G) (h : isSpace l = true) : trim l = [] := by
 
 theorem isSpace_contribution (l : List G) (h : isSpace l = true) : distanceContribution l = 0 := by
   unfold distanceContribution
-  rw [isSpace_trim l h]; rfl
+  rw [isSpace_trim l h]
+  simp [width]
+
+/-- With the repaired `distance_contribution` a section that contributes nothing is blank after
+trimming (not merely of display width 0). -/
+theorem contribution_zero_blank (l : List G) (hflag : nonBlankCountsAtLeastOne = true)
+    (h : distanceContribution l = 0) : trim l = [] := by
+  unfold distanceContribution at h
+  simp only [hflag, if_true] at h
+  by_cases ht : trim l = []
+  · exact ht
+  · simp only [ht, if_false] at h
+    omega
 
 theorem isSpace_trimEnd (l : List G) (h : isSpace l = true) : trimEnd l = [] := by
   unfold trimEnd
